@@ -64,9 +64,10 @@ unsafe impl GlobalAlloc for SimAlloc {
         }
         if next > st.end {
             // arena exhausted: harness error, never a verdict
-            let msg = b"rsdd-sim: arena exhausted (harness error)\n";
+            let msg = b"rsdd-sim: arena exhausted: a run needs more than 1 GiB\n";
             libc::write(2, msg.as_ptr() as *const libc::c_void, msg.len());
-            libc::_exit(2);
+            // die on a signal so that the supervisor isolates the in-flight run
+            libc::abort();
         }
         st.last = start;
         st.cur = next;
